@@ -449,6 +449,7 @@ func runC09(r *core.Run) {
 		}
 		all = append(all, batch...)
 		bad := validateObs(r, batch)
+		obsSelfTest(r, batch, bad)
 		idxs := make([]int, 0, len(bad))
 		for i := range bad {
 			idxs = append(idxs, i)
@@ -642,4 +643,48 @@ func replayC09(r *core.Run, path string) {
 		r.Violation(fpSignature(bad[0], t), bad[0], map[string]interface{}{"init": t.Init, "schedule": t.Schedule, "clause": bad[0]})
 	}
 	_ = filepath.Join
+}
+
+
+var obsSelfTested bool
+
+// obsSelfTest demonstrates the binding once per run: in an accepted execution the version seen on disk after an
+// install is changed (as if an update had been lost); the observation specification must flag exactly that.
+func obsSelfTest(r *core.Run, batch []*fpTrace, bad map[int]string) {
+	if obsSelfTested {
+		return
+	}
+	for i, t := range batch {
+		if bad[i] != "" {
+			continue
+		}
+		for k, e := range t.Events {
+			if e.Pt != "commit.swapped" || e.Dir == nil || e.Dir[e.F].Ver < 1 {
+				continue
+			}
+			c := *t
+			c.Events = make([]sched.Event, len(t.Events))
+			for j, x := range t.Events {
+				c.Events[j] = x
+				if j >= k {
+					d := map[string]sched.DirF{}
+					for f, v := range x.Dir {
+						if f == e.F && v.Ver >= 0 {
+							v.Ver += 5
+						}
+						d[f] = v
+					}
+					c.Events[j].Dir = d
+				}
+			}
+			if got := validateObs(r, []*fpTrace{&c}); got[0] == "" {
+				core.Fail("FileProtocolObs accepts an execution in which the installed version was changed: the binding is vacuous")
+			} else {
+				r.Count("binding_selftest_corrupted_execution_flagged", 1)
+				r.Coverage["binding_selftest_clause"] = got[0]
+			}
+			obsSelfTested = true
+			return
+		}
+	}
 }
